@@ -356,14 +356,33 @@ Qed.
 
 (* ---- decoder ----------------------------------------------------------------- *)
 
+(* half-rate flag: 0, or 1 with block sizes divisible by 8 (>= 128 in practice:
+   vorbis_synthesis_halfrate refuses 64-sample blocks) *)
+Definition WFh (c : cfg) : Prop :=
+  WF c /\ (hs c = 0 \/ (hs c = 1 /\ bs0 c mod 8 = 0 /\ bs1 c mod 8 = 0)).
 Definition WF0 (c : cfg) : Prop := WF c /\ hs c = 0.
+Lemma WF0_WFh c : WF0 c -> WFh c.
+Proof. intros [H1 H2]. split; auto. Qed.
 
 Definition n1of (c : cfg) : Z := Z.shiftr (bs1 c) (hs c + 1).
+Definition hdiv (c : cfg) (x : Z) : Z := x / 2 ^ hs c.
 
-Lemma n1_pos c : WF0 c -> 32 <= n1of c.
+Ltac hs_cases Hh :=
+  let E0 := fresh "Eb0" in let E1 := fresh "Eb1" in
+  destruct Hh as [Hh | (Hh & E0 & E1)]; rewrite ?Hh in *;
+  cbn [Z.add] in *;
+  rewrite ?Z.shiftr_div_pow2, ?Z.shiftl_mul_pow2 in * by lia;
+  change (2 ^ 0) with 1 in *; change (2 ^ 1) with 2 in *; change (2 ^ 2) with 4 in *.
+
+Lemma n1_pos c : WFh c -> 16 <= n1of c.
 Proof.
-  intros [[H1 H2] H3]. unfold n1of. rewrite H3. cbn [Z.add].
-  rewrite Z.shiftr_div_pow2 by lia. change (2 ^ 1) with 2. lia.
+  intros [[H1 H2] Hh]. unfold n1of. hs_cases Hh; lia.
+Qed.
+
+Lemma step_even c a b : WFh c -> hs c = 1 -> step c a b mod 2 = 0.
+Proof.
+  intros [[H1 H2] Hh] E. destruct Hh as [Hh | (Hh & E0 & E1)]; [lia|].
+  unfold step, bsz. destruct a, b; lia.
 Qed.
 
 Lemma granule_tracked_eq h gran0 count1 stp b r cu :
@@ -376,20 +395,25 @@ Proof.
   rewrite H2. reflexivity.
 Qed.
 
-Lemma granule_tracked_final gran0 count1 stp b r cu :
+(* last packet: the tracked position overshoots the packet's by extra samples,
+   which are taken off the end (extra >> hs returned samples) *)
+Lemma granule_tracked_final h gran0 count1 stp b r cu :
+  (h = 0 \/ h = 1) ->
   gran0 <> -1 -> k_gran b <> -1 -> k_eof b = true ->
-  k_gran b <= gran0 + stp -> gran0 + stp - k_gran b <= cu - r ->
-  dec_granule 0 gran0 count1 stp b r cu = (k_gran b, r, cu - (gran0 + stp - k_gran b)).
+  k_gran b <= gran0 + stp -> gran0 + stp - k_gran b <= (cu - r) * 2 ^ h ->
+  dec_granule h gran0 count1 stp b r cu = (k_gran b, r, cu - (gran0 + stp - k_gran b) / 2 ^ h).
 Proof.
-  intros H1 H2 H3 H4 H5. unfold dec_granule.
+  intros Hh H1 H2 H3 H4 H5. unfold dec_granule.
   destruct (gran0 =? -1) eqn:E; [lia|].
   destruct (negb (k_gran b =? -1) && negb (gran0 + stp =? k_gran b)) eqn:E2.
-  - unfold trim_tracked. rewrite H3, Z.shiftl_0_r, andb_true_r.
+  - unfold trim_tracked. rewrite H3, andb_true_r.
+    rewrite Z.shiftl_mul_pow2, Z.shiftr_div_pow2 by lia.
     destruct (gran0 + stp >? k_gran b) eqn:E3; [|lia].
-    destruct (gran0 + stp - k_gran b >? cu - r) eqn:E4; [lia|].
+    destruct (gran0 + stp - k_gran b >? (cu - r) * 2 ^ h) eqn:E4; [lia|].
     destruct (gran0 + stp - k_gran b <? 0) eqn:E5; [lia|].
-    rewrite Z.shiftr_0_r. reflexivity.
-  - assert (gran0 + stp = k_gran b) as -> by lia. f_equal. lia.
+    reflexivity.
+  - assert (gran0 + stp = k_gran b) as -> by lia. f_equal. rewrite Z.sub_diag.
+    destruct Hh as [-> | ->]; cbn; lia.
 Qed.
 
 Lemma granule_first_zero h stp b r cu :
@@ -403,7 +427,7 @@ Definition mkd lW W cw cur ret gran seq count eof : dec :=
      d_count := count; d_eof := eof |}.
 
 Lemma blockin_first c b :
-  WF0 c -> k_pcm b = true -> k_gran b = 0 ->
+  WFh c -> k_pcm b = true -> k_gran b = 0 ->
   dec_blockin c (dec_init c) b =
   (0, mkd false (k_W b) 0 (n1of c) (n1of c) 0 (k_seq b) 0 (k_eof b)).
 Proof.
@@ -418,35 +442,37 @@ Proof.
 Qed.
 
 Lemma blockin_tracked c s b :
-  WF0 c -> k_pcm b = true -> d_ret s = d_cur s -> 0 <= d_ret s ->
+  k_pcm b = true -> d_ret s = d_cur s -> 0 <= d_ret s ->
   d_seq s <> -1 -> d_seq s + 1 = k_seq b -> d_gran s <> -1 -> d_count s <> -1 ->
   let stp := step c (d_W s) (k_W b) in
   let prevC := if d_centerW s =? 0 then n1of c else 0 in
   dec_blockin c s b =
-  (0, let '(g, r, cu) := dec_granule 0 (d_gran s) (d_count s + stp) stp b prevC (prevC + stp) in
+  (0, let '(g, r, cu) := dec_granule (hs c) (d_gran s) (d_count s + stp) stp b prevC (prevC + Z.shiftr stp (hs c)) in
       mkd (d_W s) (k_W b) (if d_centerW s =? 0 then n1of c else 0) cu r g (k_seq b) (d_count s + stp)
           (d_eof s || k_eof b)).
 Proof.
-  intros [Hc Hhs] Hp Hr Hr0 Hs1 Hs2 Hg Hcn. cbv zeta.
+  intros Hp Hr Hr0 Hs1 Hs2 Hg Hcn. cbv zeta.
   unfold dec_blockin. rewrite Hr.
   destruct ((d_cur s >? d_cur s) && negb (d_cur s =? -1)) eqn:E0; [lia|].
   destruct ((d_seq s =? -1) || negb (d_seq s + 1 =? k_seq b)) eqn:E1; [lia|].
-  unfold dec_pcmpart. rewrite Hp, Hr. fold (n1of c). rewrite Hhs, Z.shiftr_0_r.
+  unfold dec_pcmpart. rewrite Hp, Hr. fold (n1of c).
   destruct (d_cur s =? -1) eqn:E2; [lia|].
   destruct (d_count s =? -1) eqn:E3; [lia|].
   fold (step c (d_W s) (k_W b)).
-  destruct (dec_granule 0 (d_gran s) (d_count s + step c (d_W s) (k_W b)) (step c (d_W s) (k_W b)) b
+  destruct (dec_granule (hs c) (d_gran s) (d_count s + step c (d_W s) (k_W b)) (step c (d_W s) (k_W b)) b
               (if d_centerW s =? 0 then n1of c else 0)
-              ((if d_centerW s =? 0 then n1of c else 0) + step c (d_W s) (k_W b))) as [[g r] cu].
+              ((if d_centerW s =? 0 then n1of c else 0) + Z.shiftr (step c (d_W s) (k_W b)) (hs c))) as [[g r] cu].
   reflexivity.
 Qed.
 
-(* state after decoding the non-final blocks [acc] and draining all output *)
+(* state after decoding the non-final blocks [acc] and draining all output;
+   total counts returned samples: (centre of the last decoded block) >> hs *)
 Definition DInv (c : cfg) (s : dec) (total : Z) (acc : list eblock) (off : Z) (W lW : bool) (seq : Z) : Prop :=
   match acc with
   | [] => s = dec_init c /\ total = 0
   | _ => d_W s = lW /\ d_seq s = seq - 1 /\ d_gran s = off - step c lW W /\ d_count s = off - step c lW W /\
-         d_ret s = d_cur s /\ 0 <= d_ret s /\ total = off - step c lW W
+         d_ret s = d_cur s /\ 0 <= d_ret s /\ total = hdiv c (off - step c lW W) /\
+         (hs c = 1 -> (off - step c lW W) mod 2 = 0)
   end.
 
 Lemma emitted_nonempty_facts c a r off W lW seq : WF c ->
@@ -462,13 +488,14 @@ Proof.
 Qed.
 
 Lemma dec_mid c s total acc off W lW seq nW :
-  WF0 c -> Emitted c acc off W lW seq -> DInv c s total acc off W lW seq ->
+  WFh c -> Emitted c acc off W lW seq -> DInv c s total acc off W lW seq ->
   forall s' total', dec_step c (s, total) (to_dblock (mkb lW W nW seq off false)) = (s', total') ->
   DInv c s' total' (acc ++ [mkb lW W nW seq off false]) (off + step c W nW) nW W (seq + 1).
 Proof.
   intros Hc He Hd s' total' E.
   pose proof (n1_pos c Hc) as Hn1. pose proof Hc as [Hc' Hhs].
   pose proof (step_bounds c lW W Hc') as Hst. pose proof (step_bounds c W nW Hc') as Hst2.
+  pose proof (step_even c lW W Hc) as Hev.
   unfold DInv. destruct (acc ++ [mkb lW W nW seq off false]) eqn:Eapp; [destruct acc; discriminate|]. clear Eapp.
   replace (off + step c W nW - step c W nW) with off by lia.
   unfold dec_step in E. unfold DInv in Hd. destruct acc as [|a0 r0].
@@ -476,8 +503,9 @@ Proof.
     rewrite blockin_first in E by (auto; reflexivity).
     unfold dec_pcmout, dec_read, mkd in E. cbn in E.
     destruct ((n1of c >? -1) && (n1of c <? n1of c)) eqn:E1; [lia|].
-    cbn in E. injection E as <- <-. cbn. repeat split; lia.
-  - destruct Hd as (D1 & D2 & D3 & D4 & D5 & D6 & D7).
+    cbn in E. injection E as <- <-. cbn. unfold hdiv.
+    repeat split; first [lia | symmetry; apply Z.div_0_l; destruct Hhs as [-> | (-> & _)]; cbn; lia].
+  - destruct Hd as (D1 & D2 & D3 & D4 & D5 & D6 & D7 & D8).
     destruct (emitted_nonempty_facts c a0 r0 off W lW seq Hc' He) as [Hseq Hoff].
     rewrite blockin_tracked in E; try assumption; try reflexivity;
       cbn [to_dblock mkb k_seq k_W k_gran k_eof k_pcm b_seq b_W b_gran b_eof]; try lia.
@@ -486,14 +514,17 @@ Proof.
     unfold dec_pcmout, dec_read, mkd in E. cbn [d_ret d_cur d_W d_lW d_seq d_gran d_count d_eof d_centerW] in E.
     set (prevC := if d_centerW s =? 0 then n1of c else 0) in *.
     assert (0 <= prevC) by (unfold prevC; destruct (d_centerW s =? 0); lia).
-    destruct ((prevC >? -1) && (prevC <? prevC + step c lW W)) eqn:E1; [|lia].
-    replace (prevC + step c lW W - prevC) with (step c lW W) in E by lia.
-    destruct (negb (step c lW W =? 0) && (prevC + step c lW W >? prevC + step c lW W)) eqn:E2; [lia|].
-    cbn in E. injection E as <- <-. cbn. repeat split; lia.
+    set (out := Z.shiftr (step c lW W) (hs c)) in *.
+    assert (16 <= out /\ total + out = hdiv c off /\ (hs c = 1 -> off mod 2 = 0)) as (Ho & Ht & Hpar).
+    { unfold out, hdiv in *. subst total. clear E. hs_cases Hhs; lia. }
+    destruct ((prevC >? -1) && (prevC <? prevC + out)) eqn:E1; [|lia].
+    replace (prevC + out - prevC) with out in E by lia.
+    destruct (negb (out =? 0) && (prevC + out >? prevC + out)) eqn:E2; [lia|].
+    cbn in E. injection E as <- <-. cbn. repeat split; first [lia | exact Hpar].
 Qed.
 
 Lemma dec_run_emitted c acc off W lW seq :
-  WF0 c -> Emitted c acc off W lW seq ->
+  WFh c -> Emitted c acc off W lW seq ->
   DInv c (fst (dec_run c (map to_dblock acc))) (snd (dec_run c (map to_dblock acc))) acc off W lW seq.
 Proof.
   intros Hc He. induction He as [|acc off W lW seq nW He IH].
@@ -505,14 +536,16 @@ Proof.
     cbn [fst snd]. eapply dec_mid; eauto.
 Qed.
 
-(* (B) decoding a final sequence returns exactly N samples *)
-Lemma dec_run_final c N bl :
-  WF0 c -> 0 <= N -> FinalSeq c N bl -> snd (dec_run c (map to_dblock bl)) = N.
+(* (B) decoding a final sequence returns exactly ceil(N / 2^hs) samples *)
+Lemma dec_run_final_h c N bl :
+  WFh c -> 0 <= N -> FinalSeq c N bl ->
+  snd (dec_run c (map to_dblock bl)) = (N + 2 ^ hs c - 1) / 2 ^ hs c.
 Proof.
   intros Hc HN (acc & off & W & lW & seq & nW & He & -> & Hle & Hf).
   pose proof (dec_run_emitted c acc off W lW seq Hc He) as Hd.
   pose proof (n1_pos c Hc) as Hn1. pose proof Hc as [Hc' Hhs].
   pose proof (step_bounds c lW W Hc') as Hst.
+  pose proof (step_even c lW W Hc) as Hev.
   unfold dec_run in *. rewrite map_app, fold_left_app. cbn [map fold_left].
   destruct (fold_left (dec_step c) (map to_dblock acc) (dec_init c, 0)) as [s total].
   cbn [fst snd] in Hd. unfold dec_step. unfold DInv in Hd. destruct acc as [|a0 r0].
@@ -520,10 +553,10 @@ Proof.
     assert (N = 0) as -> by lia.
     rewrite blockin_first by (auto; reflexivity).
     unfold dec_pcmout, dec_read, mkd. cbn.
-    destruct ((n1of c >? -1) && (n1of c <? n1of c)) eqn:E1; [lia|]. reflexivity.
-  - destruct Hd as (D1 & D2 & D3 & D4 & D5 & D6 & D7).
+    destruct ((n1of c >? -1) && (n1of c <? n1of c)) eqn:E1; [lia|]. cbn.
+    destruct Hhs as [-> | (-> & _)]; reflexivity.
+  - destruct Hd as (D1 & D2 & D3 & D4 & D5 & D6 & D7 & D8).
     destruct (emitted_nonempty_facts c a0 r0 off W lW seq Hc' He) as [Hseq Hoff].
-    (* the last non-final block's centre is below N *)
     assert (off - step c lW W < N) as Hlast.
     { clear -He Hf Hc'. inversion He as [|acc1 off1 W1 lW1 seq1 nW1 He1 Eacc]; subst.
       rewrite <- Eacc in Hf. apply Forall_app in Hf. destruct Hf as [_ Hf]. inversion Hf; subst. cbn in *. lia. }
@@ -532,12 +565,35 @@ Proof.
     rewrite D1, D3, D4. cbn [to_dblock mkb k_seq k_W k_gran k_eof k_pcm b_seq b_W b_gran b_eof].
     set (prevC := if d_centerW s =? 0 then n1of c else 0) in *.
     assert (0 <= prevC) by (unfold prevC; destruct (d_centerW s =? 0); lia).
-    rewrite granule_tracked_final by (cbn; lia). cbn [to_dblock mkb k_seq k_W k_gran k_eof k_pcm b_seq b_W b_gran b_eof].
+    set (out := Z.shiftr (step c lW W) (hs c)) in *.
+    assert (out * 2 ^ hs c = step c lW W) as Hout.
+    { unfold out. clear D7. hs_cases Hhs; lia. }
+    assert (hs c = 0 \/ hs c = 1) as Hh01 by (destruct Hhs as [-> | (-> & _)]; auto).
+    rewrite granule_tracked_final;
+      cbn [to_dblock mkb k_seq k_W k_gran k_eof k_pcm b_seq b_W b_gran b_eof];
+      first [exact Hh01 | reflexivity | lia | idtac].
     unfold dec_pcmout, dec_read, mkd. cbn [d_ret d_cur d_W d_lW d_seq d_gran d_count d_eof d_centerW].
-    set (x := off - step c lW W + step c lW W - N) in *.
-    destruct ((prevC >? -1) && (prevC <? prevC + step c lW W - x)) eqn:E1; [|lia].
-    destruct (negb (prevC + step c lW W - x - prevC =? 0) && (prevC + (prevC + step c lW W - x - prevC) >? prevC + step c lW W - x)) eqn:E2; [lia|].
+    set (x := (off - step c lW W + step c lW W - N) / 2 ^ hs c) in *.
+    assert (0 <= x < out /\ total + (out - x) = (N + 2 ^ hs c - 1) / 2 ^ hs c) as (Hx & Htot).
+    { unfold x, out, hdiv in *. subst total. clear Hout. hs_cases Hhs; lia. }
+    destruct ((prevC >? -1) && (prevC <? prevC + out - x)) eqn:E1; [|lia].
+    destruct (negb (prevC + out - x - prevC =? 0) && (prevC + (prevC + out - x - prevC) >? prevC + out - x)) eqn:E2; [lia|].
     cbn [snd]. lia.
+Qed.
+
+Lemma dec_run_final c N bl :
+  WF0 c -> 0 <= N -> FinalSeq c N bl -> snd (dec_run c (map to_dblock bl)) = N.
+Proof.
+  intros Hc HN Hf. rewrite (dec_run_final_h c N bl (WF0_WFh c Hc) HN Hf).
+  destruct Hc as [_ ->]. cbn. rewrite Z.div_1_r. lia.
+Qed.
+
+(* C20: with half-rate on, a link of N samples yields ceil(N/2) *)
+Lemma dec_run_final_half c N bl :
+  WFh c -> hs c = 1 -> 0 <= N -> FinalSeq c N bl -> snd (dec_run c (map to_dblock bl)) = (N + 1) / 2.
+Proof.
+  intros Hc Hh HN Hf. rewrite (dec_run_final_h c N bl Hc HN Hf). rewrite Hh.
+  change (2 ^ 1) with 2. f_equal. lia.
 Qed.
 
 (* C04: encode then decode preserves the exact sample count *)
